@@ -43,7 +43,7 @@ def three_sanitizers(ad):
 def run_direct_property(prop, eps, sizes, nrandom, want_default, extra_must=None, mc_suffix=None,
                         cfg_override=None, lifts=1, evidence_extra=None, reject_is_violation=None,
                         rows_fn=None, fams=FAMS, decl_filter=None, nshards=4, const_twins=False, extra_mc=(), sweeps=False, generic_history=False,
-                        gate_fn=None, release_twins=0):
+                        gate_fn=None, release_twins=0, extra_decls=None):
     """Generic driver: model-check the four family slices, replay a seeded sample of the TLC-enumerated
     declarations (every enumerated input and more) into freshly generated code, validate the recorded
     trace against the specification."""
@@ -83,6 +83,10 @@ def run_direct_property(prop, eps, sizes, nrandom, want_default, extra_must=None
             decls = decls + twins
         feats = ["serde", "regex"] if fam == "string" else ["serde"]
         name = "%s_%s" % (prop.lower(), fam)
+        extra_ids = set()
+        if extra_decls and extra_decls.get(fam):
+            decls = decls + list(extra_decls[fam])
+            extra_ids = {d["id"] for d in extra_decls[fam]}
         if gate_fn:
             # declarations derived from the sampled ones that the macro must REFUSE (acceptance = violation);
             # the sampled originals, which compile, are their positive controls
@@ -114,7 +118,7 @@ def run_direct_property(prop, eps, sizes, nrandom, want_default, extra_must=None
         obs, rejected, alive = CV.build_and_run(name, decls, rows_of, feats, feats, nshards=nshards)
         for k, msgs in rejected.items():
             not_evaluated[k] = msgs[:3]
-            if reject_is_violation and reject_is_violation(msgs):
+            if (reject_is_violation and reject_is_violation(msgs)) or k in extra_ids:      # (a probe declaration must compile)
                 d = [x for x in decls if x["id"] == k][0]
                 verdict.violation({"property": prop, "decl": k, "family": fam, "kind": "compile",
                                    "declaration": CV.describe_decl(d), "messages": msgs[:5],
@@ -315,12 +319,62 @@ def sanitizer_sensitive(ad):
             and any(r["k"] in ("len_char_min", "len_char_max", "not_empty") for r in ad["val"]))
 
 
+def hygiene_probe_decls():
+    """C03 / Default: the `default = <expr>` expression is spliced into generated code. Build one declaration with the hook on,
+    read the names the generated `fn default()` declares itself (`let x`, `const X`, `static X`) off the recorded expansion,
+    and declare for each a user constant of that very name as the default: it must not be captured."""
+    import re
+    import subprocess
+    from .common import WORK, ensure_dir
+    from .crate import Crate, build_many
+    tdir = ensure_dir(os.path.join(WORK, "trace", "c03_hyg"))
+    hook = os.path.join(tdir, "hook.ndjson")
+    if os.path.exists(hook):
+        os.remove(hook)
+    src = ("#![allow(unused, dead_code)]\nuse nutype::nutype;\n#[nutype(validate(greater = 0), derive(Debug, Default), default = 5)]\npub struct HygInt(i32);\n"
+           "#[nutype(sanitize(trim), validate(not_empty), derive(Debug, Default), default = \"a\")]\npub struct HygStr(String);\n")
+    os.environ["NUTYPE_VERIF_TRACE"] = hook
+    try:
+        c = Crate("c03_hyg", ["serde", "verif_hooks"], ["serde"], {"h0": src},
+                  lambda ids: "#![allow(unused, dead_code)]\n" + "".join('#[path = "d/%s.rs"] mod %s;\n' % (k, k) for k in ids) + "fn main() {}\n")
+        build_many([c])
+    finally:
+        os.environ.pop("NUTYPE_VERIF_TRACE", None)
+    names = set()
+    if os.path.exists(hook):
+        for line in open(hook):
+            out = json.loads(line).get("out", "")
+            m = re.search(r"fn\s+default\s*\(\s*\)\s*->\s*Self\s*\{(.*)", out, re.S)
+            if not m:
+                continue
+            body = m.group(1)[:4000]
+            for kw, nm in re.findall(r"\b(let|let mut|const|static)\s+([A-Za-z_][A-Za-z0-9_]*)\b", body):
+                if nm not in ("mut", "_"):
+                    names.add(nm)
+    decls = []
+    for i, nm in enumerate(sorted(names)[:12]):
+        di = VL.instantiate_int({"fam": "int", "ty": "i8", "san": [], "vmode": "std",
+                                 "val": [{"k": "greater", "b": 0, "fn": "", "p": [], "sp": "lit"}],
+                                 "traits": ["Debug", "Clone", "PartialEq", "Default"], "dflt": [7]}, "i8", "hyg%02d_i" % i)
+        di["default_item"] = [nm, "7"]
+        di["minimal_driver"] = True
+        decls.append(di)
+        decls.append({"id": "hyg%02d_s" % i, "fam": "string", "ty": "String", "san": [{"k": "trim", "fn": "", "p": []}], "vmode": "std",
+                      "val": [{"k": "not_empty", "b": 0, "fn": "", "p": [], "sp": "lit"}], "traits": ["Debug", "Clone", "PartialEq", "Default"],
+                      "dflt": [(98,)], "default_item": [nm, "\"b\""], "minimal_driver": True})
+    return decls, sorted(names)
+
+
 def check_C03():
     q = tier() == "quick"
     sizes = {"int": 60, "float": 40, "string": 100, "any": 40} if q else {"int": 300, "float": 200, "string": 300, "any": None}
     eps = {"try_from", "from", "try_from_ref", "from_ref", "from_str_s", "default", "try_new", "new"}
+    hyg, names = hygiene_probe_decls()
     return run_direct_property("C03", eps, sizes, 30 if q else 200, True, generic_history=True, release_twins=12 if q else 60,
-                               extra_must=sanitizer_sensitive)
+                               extra_must=sanitizer_sensitive, extra_decls={"int": [d for d in hyg if d["fam"] == "int"],
+                                                                             "string": [d for d in hyg if d["fam"] == "string"]},
+                               reject_is_violation=lambda msgs: False,
+                               evidence_extra={"hygiene_probe_names": names})
 
 
 def check_C07():
